@@ -784,7 +784,7 @@ func TestC18(t *testing.T) {
 	if !res.Done {
 		run.ChildCrashed(res, "C18/stress", "stress phase")
 	}
-	code := run.Finish("controlled: goroutines are gated at the 7 verif schedule points of tmutex (one runs at a time; a goroutine before the channel receive is enabled iff a token is queued); all decision sequences are enumerated depth-first for the small programs (L=Lock,U=Unlock,T=TryLock; see exhaustive_programs), capped DFS and seeded random-priority schedules for the larger ones; verdicts: occupancy>1, deadlock (= no enabled goroutine while some Lock has not returned), TryLock false while free and un-overlapped. stress (-race build): 2-16 free-running goroutines with seeded Gosched/spin/sleep injected at the same points, occupancy counter, porcupine on each history, lost wake-up decided from state. distinct = decision sequences (capped per program in the count) + distinct stress interleaving signatures",
+	code := run.Finish("controlled: goroutines are gated at the 7 verif schedule points of tmutex (one runs at a time; a goroutine before the channel receive is enabled iff a token is queued); all decision sequences are enumerated depth-first for the small programs (L=Lock,U=Unlock,T=TryLock; see exhaustive_programs), capped DFS and seeded random-priority schedules for the larger ones; verdicts: occupancy>1, deadlock (= no enabled goroutine while some Lock has not returned), TryLock false while free and un-overlapped. stress (-race build): 2-16 free-running goroutines with seeded Gosched/spin/sleep injected at the same points, occupancy counter, porcupine on each history, lost wake-up decided from state. distinct = decision sequences (capped per program in the count) + distinct stress interleaving signatures Later additions: The wait for the last waiters among many mutexes is bounded and decides a lost wake-up from state.",
 		[]string{"in controlled mode the Load and Swap of Lock's re-check form one step (a point between them would have to rewrite an existing line); the stress mode pre-empts there", "programs never Unlock a mutex they do not hold and never Lock twice"})
 	os.Exit(code)
 }
